@@ -14,6 +14,8 @@ SPEC = {
         "rule sets use consecutive blocks of distinct namespaces; conditions that make the implementation panic (WASM traps, property C05) are counted in the distribution and excluded",
         "the tie between Sem.v and the compiler/scanner is differential (K over generated rule sets), except for the operator binding powers, which are regenerated from parser/src/ast/cst2ast.rs and conditions.md on every run",
         "architecture layer: for every generated rule the IR dumped by the compiler is compared node by node with Cond/IrTree.v (all rules), and the emitted WebAssembly instruction by instruction with Cond/Emit.v for the rules `tyof` types (about 76% of the generated rules: everything but strings - literals, string externals, string operators and comparisons); emit_correct is proved for the structural part Emit.frag1 of that fragment (about 53% of the generated rules: no emit_switch constructs - `of` needing a loop, `of` over a tuple, for..of, for..in over a tuple - and no percentage quantifiers), for..in ranges with nested loops included; the machine run of the same code is evaluated by K on that part",
+        "boundary of the exact code comparison: strings (literals, string externals, string operators and comparisons, string-typed `with` / loop variables) are outside `tyof` - the emitter names string literals by their id in the literal pool of the whole compilation (one more hook) and typing them needs a third type in Cond/Emit.v, which about 80 case analyses of EmitProofs.v enumerate; conditions with strings are still covered by the IR comparison and by the verdicts",
+        "one guard lives outside the model: harness/src/bin/c02.rs expectation_probe asserts in Rust the verdicts of `for k, v in <map>` loops over the fixed maps of the test_proto2 module, placed after a `with` that leaves undefined flags in the slots the loop variables reuse (modules and maps are not part of Cond/Syntax.v; a mismatch stops the harness with the source printed)",
     ],
     "trusted_base": ["harness/src/wasm_read.rs: decoder of the WebAssembly binary written by Compiler::emit_wasm_file (unknown opcode = error); harness/src/bin/c02.rs rule_blocks / wasm_coq: finds every rule's block through the rule_match(<rule id>) call that follows it, resolves call targets and globals through the import section, keeps only the offset of a memarg and the arity of a block type",
                      "hook lib/src/verif_c02.rs (Rules::verif_c02_pattern_ids): the PatternId of every declared pattern, which the emitted code uses instead of the position in the rule",
@@ -155,7 +157,7 @@ MANIFEST = {
                    "the predicted code instruction by instruction (about 76% of the generated rules; strings are outside). The rest of the "
                    "pipeline (parser, scanner, host functions) is tied differentially through verdicts. Found and repaired: constant folding "
                    "through f64, `0 of <set>` and run-time N <= 0 on the range fast path, undefined-flag aliasing beyond 64 slots, skipped "
-                   "lazy pattern search; open: `N of (<boolean>, ..)` depends on the order of its items when one is undefined."),
+                   "lazy pattern search, `N of (<boolean>, ..)` depending on the order of its items when one is undefined."),
     "technique": "Coq evaluator, stack machine and emitter model + theorems; translators for the precedence tables and the emitter's constants; exact comparison of the compiler's IR and emitted WebAssembly with the models, and differential verdicts, on generated rule sets (vm_compute)",
     "design_ref": "DESIGN.md section 4, C02",
 }
